@@ -72,6 +72,7 @@ type FnEnc struct {
 	heldPred      string          // predicate "this cell is a lock ghost" (see heldCellPred)
 	heldPredDone  bool
 	curCalleeFull string            // full name of the callee whose call-site assertions are being emitted
+	assertMatched map[int]bool      // call-site assertions of the contract that met a call
 	inGlobalInv   bool              // evaluating package-level invariants after a havoc
 	rangeStartHas map[string]string // visited-set key -> which keys the ranged map had at the start
 	eqState       *State            // state in which == on interface values loads boxed contents
@@ -199,23 +200,14 @@ func capturedOnlyLocally(a *ssa.Alloc) bool {
 	return captured
 }
 
-// spawnedReadOnly: the closure is only started with `go` and only READS the
-// captured variable a (so the spawning function's view of a never changes;
-// the goroutine itself is not interleaved, see the note on go statements).
+// spawnedReadOnly: the closure only READS the captured variable a (so the
+// capturing function's view of a never changes, whoever runs the closure and
+// whenever; a goroutine started with it is not interleaved, see the note on
+// go statements).
 func spawnedReadOnly(mc *ssa.MakeClosure, a *ssa.Alloc) bool {
-	refs := mc.Referrers()
-	if refs == nil {
-		return false
-	}
-	for _, r := range *refs {
-		if _, ok := r.(*ssa.DebugRef); ok {
-			continue
-		}
-		g, ok := r.(*ssa.Go)
-		if !ok || g.Call.Value != mc {
-			return false
-		}
-	}
+	// (whatever is done with the closure value - started with go, handed to
+	// a library as a callback, stored - its only access to the variable is
+	// through its free variable, and that is only ever loaded)
 	fn, ok := mc.Fn.(*ssa.Function)
 	if !ok {
 		return false
